@@ -38,6 +38,7 @@ func abbrevPrint(s string) string {
 func runC17(c *Ctx) {
 	defer c.shared("R10", "C09/R3", "a container reachable from itself is recognised as such: copying an array keeps its identity (the same slice header, capacity included, on which the identity test relies)", keyHas("copy ValueArray", "copy ValueObj"), c09R3)
 	defer c.shared("R9", "C08/R4", "print writes its own arguments: the list of evaluated arguments is made per statement and not kept, so a print executed while an argument is evaluated cannot overwrite it", keyHas("expression-list"), func(s *Ctx) { exprListFresh(s, "R4") })
+	defer c.shared("R15", "C13/R4", "a bare print is ended by the line break behind it, in a CRLF program as well: the lexer skips blanks and comments only, every line feed is a Newline token", keyHas("newline-never-skipped"), c13Blanks)
 	defer c.shared("R12", "C04/R3", "sharing without a cycle is printed in full: the renderer's ancestor test calls two arrays the same only when they share the last slot of their backing store (an older, shorter copy of a grown array is a different array)", keyHas("alias", "isSame"), func(s *Ctx) { isSameTable(s, "R3") })
 	defer c.shared("R14", "C15/R2", "sharing without a cycle is printed in full: pop and popfirst only re-slice their receiver, they store nothing into the backing array another reference still covers (a nil left there crashes the renderer)", keyHas("array.pop", "array.popfirst"), func(s *Ctx) { c15R2(s, nativeMethods(s.P)) })
 	defer c.shared("R11", "C02/R4", "a rule without a body prints $ exactly as a bare print does: the parser gives it a print statement without arguments, and every matched rule's action is the evaluation of its body statement (nothing prints on its behalf)", keyHas("matched-rule-body-not-skipped", "bodyless-rule-prints", "body-of-ranged-rule"), c02R4)
